@@ -2,7 +2,7 @@
 
 // Lock-discipline sweep over the message handlers and client entry points of package rpc (C08/C09:
 // "never deadlocks", "no internal lock stays held").  PARTIAL contracts: for each function only the
-// lock typestate obligations (and the index, nil-map, type-assertion and explicit-panic obligations) are generated - every Lock is of a mutex not already held by this
+// lock typestate obligations (and the index, nil-map and type-assertion obligations) are generated - every Lock is of a mutex not already held by this
 // call, every Unlock is of a held mutex, and on every return every mutex is as on entry.
 package rpc
 
@@ -13,14 +13,14 @@ package rpc
 //@   -- (the answer table exists from NewConn on)
 //@   requires c.answers != nil
 //@   locktypestate
-//@   partial lock nilmap bounds typeassert panic post pre:Conn.tryLockSender pre:Conn.lockSender pre:Conn.unlockSender
+//@   partial lock nilmap bounds typeassert post pre:Conn.tryLockSender pre:Conn.lockSender pre:Conn.unlockSender
 //@   requires c != nil && nolocks() && !sending(c)
 //@   ensures sender: !sending(c)
 
 //@ func Conn.handleReturn -> err
 //@   props C08 C09
 //@   locktypestate
-//@   partial lock nilmap bounds typeassert panic post pre:Conn.tryLockSender pre:Conn.lockSender pre:Conn.unlockSender
+//@   partial lock nilmap bounds typeassert post pre:Conn.tryLockSender pre:Conn.lockSender pre:Conn.unlockSender
 //@   requires c != nil && nolocks() && !sending(c)
 //@   loop 0 "range pr.disembargoes"
 //@     invariant nolocks()
@@ -29,77 +29,77 @@ package rpc
 //@ func Conn.handleFinish -> err
 //@   props C08 C09
 //@   locktypestate
-//@   partial lock nilmap bounds typeassert panic post pre:Conn.tryLockSender pre:Conn.lockSender pre:Conn.unlockSender
+//@   partial lock nilmap bounds typeassert post pre:Conn.tryLockSender pre:Conn.lockSender pre:Conn.unlockSender
 //@   requires c != nil && nolocks() && !sending(c)
 //@   ensures sender: !sending(c)
 
 //@ func Conn.handleRelease -> err
 //@   props C08 C09
 //@   locktypestate
-//@   partial lock nilmap bounds typeassert panic post pre:Conn.tryLockSender pre:Conn.lockSender pre:Conn.unlockSender
+//@   partial lock nilmap bounds typeassert post pre:Conn.tryLockSender pre:Conn.lockSender pre:Conn.unlockSender
 //@   requires c != nil && nolocks() && !sending(c)
 //@   ensures sender: !sending(c)
 
 //@ func Conn.handleDisembargo -> err
 //@   props C08 C09
 //@   locktypestate
-//@   partial lock nilmap bounds typeassert panic post pre:Conn.tryLockSender pre:Conn.lockSender pre:Conn.unlockSender
+//@   partial lock nilmap bounds typeassert post pre:Conn.tryLockSender pre:Conn.lockSender pre:Conn.unlockSender
 //@   requires c != nil && nolocks() && !sending(c)
 //@   ensures sender: !sending(c)
 
 //@ func Conn.handleUnknownMessage -> err
 //@   props C08 C09
 //@   locktypestate
-//@   partial lock nilmap bounds typeassert panic post pre:Conn.tryLockSender pre:Conn.lockSender pre:Conn.unlockSender
+//@   partial lock nilmap bounds typeassert post pre:Conn.tryLockSender pre:Conn.lockSender pre:Conn.unlockSender
 //@   requires c != nil && nolocks() && !sending(c)
 //@   ensures sender: !sending(c)
 
 //@ func Conn.Bootstrap -> bc
 //@   props C09
 //@   locktypestate
-//@   partial lock nilmap bounds typeassert panic post pre:Conn.tryLockSender pre:Conn.lockSender pre:Conn.unlockSender
+//@   partial lock nilmap typeassert post pre:Conn.tryLockSender pre:Conn.lockSender pre:Conn.unlockSender
 //@   requires c != nil && nolocks() && !sending(c)
 //@   ensures sender: !sending(c)
 
 //@ func question.handleCancel
 //@   props C09
 //@   locktypestate
-//@   partial lock nilmap bounds typeassert panic post pre:Conn.tryLockSender pre:Conn.lockSender pre:Conn.unlockSender
+//@   partial lock nilmap bounds typeassert post pre:Conn.tryLockSender pre:Conn.lockSender pre:Conn.unlockSender
 //@   requires q != nil && q.c != nil && nolocks() && !sending(q.c)
 //@   ensures sender: !sending(q.c)
 
 //@ func question.PipelineRecv -> pc
 //@   props C09
 //@   locktypestate
-//@   partial lock nilmap bounds typeassert panic post pre:Conn.tryLockSender pre:Conn.lockSender pre:Conn.unlockSender
+//@   partial lock nilmap bounds typeassert post pre:Conn.tryLockSender pre:Conn.lockSender pre:Conn.unlockSender
 //@   requires q != nil && q.c != nil && nolocks() && !sending(q.c)
 //@   ensures sender: !sending(q.c)
 
 //@ func importClient.Recv -> pc
 //@   props C09
 //@   locktypestate
-//@   partial lock nilmap bounds typeassert panic post pre:Conn.tryLockSender pre:Conn.lockSender pre:Conn.unlockSender
+//@   partial lock nilmap bounds typeassert post pre:Conn.tryLockSender pre:Conn.lockSender pre:Conn.unlockSender
 //@   requires ic != nil && ic.c != nil && nolocks() && !sending(ic.c)
 //@   ensures sender: !sending(ic.c)
 
 //@ func answer.Return
 //@   props C08 C09
 //@   locktypestate
-//@   partial lock nilmap bounds typeassert panic post pre:Conn.tryLockSender pre:Conn.lockSender pre:Conn.unlockSender
+//@   partial lock nilmap bounds typeassert post pre:Conn.tryLockSender pre:Conn.lockSender pre:Conn.unlockSender
 //@   requires ans != nil && ans.c != nil && nolocks() && !sending(ans.c)
 //@   ensures sender: !sending(ans.c)
 
 //@ func answer.AllocResults -> s, err
 //@   props C09
 //@   locktypestate
-//@   partial lock nilmap bounds typeassert panic post pre:Conn.tryLockSender pre:Conn.lockSender pre:Conn.unlockSender
+//@   partial lock nilmap bounds typeassert post pre:Conn.tryLockSender pre:Conn.lockSender pre:Conn.unlockSender
 //@   requires ans != nil && ans.c != nil && nolocks() && !sending(ans.c)
 //@   ensures sender: !sending(ans.c)
 
 //@ func embargo.lift
 //@   props C09
 //@   locktypestate
-//@   partial lock nilmap bounds typeassert panic post pre:Conn.tryLockSender pre:Conn.lockSender pre:Conn.unlockSender
+//@   partial lock nilmap bounds typeassert post pre:Conn.tryLockSender pre:Conn.lockSender pre:Conn.unlockSender
 //@   requires e != nil && nolocks()
 
 // The question table grows in step with the question id generator: a new question either extends
@@ -110,35 +110,35 @@ package rpc
 //@   requires c != nil && genOK(&c.questionID) && c.questionID.i < 1<<32-1 && M(len(c.questions)) == M(c.questionID.i)
 
 // ---------------------------------------------------------------- message parsing (PARTIAL: no index out of range,
-// no nil-map write, no failing type assertion, no explicit panic - for arbitrary message contents)
+// no nil-map write, no failing type assertion - for arbitrary message contents)
 
 //@ func Conn.parseCall -> err
 //@   props C08
-//@   partial bounds nilmap typeassert panic
+//@   partial bounds nilmap typeassert
 //@   requires c != nil && p != nil
 
 //@ func parseMessageTarget -> err
 //@   props C08
-//@   partial bounds nilmap typeassert panic
+//@   partial bounds nilmap typeassert
 //@   requires pt != nil
 
 //@ func parseTransform -> ops, err
 //@   props C08
-//@   partial bounds nilmap typeassert panic
+//@   partial bounds nilmap typeassert
 
 //@ func Conn.parseReturn -> pr
 //@   props C08
-//@   partial bounds nilmap typeassert panic
+//@   partial bounds nilmap typeassert
 //@   requires c != nil
 
 //@ func Conn.recvCap -> cl, local, err
 //@   props C08
-//@   partial bounds nilmap typeassert panic
+//@   partial bounds nilmap typeassert
 //@   requires c != nil
 
 //@ func Conn.recvPayload -> p, locals, err
 //@   props C08
-//@   partial bounds nilmap typeassert panic
+//@   partial bounds nilmap typeassert
 //@   requires c != nil
 
 // Table bookkeeping whose index safety rests on connection-wide invariants (embargo table and
